@@ -13,11 +13,11 @@ FUNCTIONS = [("pandapower.control.util.characteristic", "Characteristic.__call__
              ("pandapower.control.util.characteristic", "SplineCharacteristic.__call__"),
              ("pandapower.control.util.characteristic", "LogSplineCharacteristic.__call__")]
 STUBS = ["numpy.interp -> reference implementation of its documented semantics (piecewise linear, end clamping), validated against numpy on every run",
-         "scipy interpolators (interp1d, PchipInterpolator) -> contract stub I(x_i) = y_i (fresh value elsewhere)",
+         "scipy interpolators (interp1d, PchipInterpolator) -> contract stubs: I(x_i) = y_i, fresh value elsewhere; the Pchip stub additionally keeps the value between neighbouring support values (scipy's documented shape preservation), the interp1d stub does not",
          "log10 / 10**x -> uninterpreted inverse pair"]
 ASSUMPTIONS = ["3-4 strictly increasing symbolic x_i, arbitrary symbolic y_i; gradient > 0"]
 OUTSIDE = ["the interpolation numerics of scipy (compiled)", "serialisation (C20's reason)", "monotonicity of Pchip between support points (scipy's contract)"]
-BOUNDS = {"quick": "Characteristic with 3 and 4 points; from_points; from_gradient; diff/satisfies; Spline and LogSpline wiring with 3 points", "thorough": "same"}
+BOUNDS = {"quick": "Characteristic with 3 and 4 points; from_points; from_gradient; diff/satisfies; Spline and LogSpline wiring with 3 points via __init__ and from_points, interpolator kind and options pass-through, monotone data with Pchip", "thorough": "same"}
 
 
 def _points(ctx, n, positive=False):
@@ -84,26 +84,49 @@ def make_gradient():
     return fn
 
 
-def make_spline(kind):
+def make_spline(kind, how="init", monotone=False, extra_kw=None):
+    """Spline classes with scipy's interpolators replaced (symbolic mode) by their documented contract:
+    both reproduce the support points; PchipInterpolator additionally preserves monotonicity of the data
+    (scipy docs: 'preserves monotonicity in the interpolation data and does not overshoot'), interp1d(quadratic) does not."""
     def fn(ctx):
         ch = ctx.load("pandapower.control.util.characteristic")
         n = 3
         xs, ys = _points(ctx, n, positive=True)
+        if monotone:
+            for i in range(n - 1):
+                ctx.assume(ys[i] <= ys[i + 1])
         net = pp.create_empty_network()
         stubs = {}
+        built = []
         if ctx.symbolic:
+            fresh = lambda: core.Ctx.cur.fresh("interp", lambda: 0.0)
+
             class Interp:
+                shape_preserving = False
+                kind = "interp1d"
+
                 def __init__(self, x, y, **kw):
-                    self.x, self.y = list(x), list(y)
+                    self.x, self.y, self.kw = list(x), list(y), dict(kw)
+                    built.append(self)
 
                 def __call__(self, q):
                     q = core.SReal.of(q)
                     for a, b in zip(self.x, self.y):
                         if core.SReal.of(a).v == q.v:
                             return b
-                    return Ctx_fresh()
-            Ctx_fresh = lambda: core.Ctx.cur.fresh("interp", lambda: 0.0)
-            stubs = dict(default_interp1d=Interp, PchipInterpolator=Interp)
+                    v = fresh()
+                    if self.shape_preserving:
+                        for k in range(len(self.x) - 1):
+                            inside = (q >= self.x[k]) & (q <= self.x[k + 1])
+                            lo_ok = (v >= self.y[k]) | (v >= self.y[k + 1])
+                            hi_ok = (v <= self.y[k]) | (v <= self.y[k + 1])
+                            core.Ctx.cur.assume(core.implies(inside, lo_ok & hi_ok))
+                    return v
+
+            class Pchip(Interp):
+                shape_preserving = True
+                kind = "Pchip"
+            stubs = dict(default_interp1d=Interp, PchipInterpolator=Pchip)
             inv = {}
 
             def log10(v):
@@ -118,13 +141,19 @@ def make_spline(kind):
                 return core.ufun("pow10", e, lambda t: 10.0 ** t)
             ctx.memo["__log10_hook__"] = log10
             ctx.memo["__rpow_hook__"] = rpow
+        kw = dict(extra_kw or {})
         with patched(ch, **stubs):
-            if kind == "log":
-                c = ch.LogSplineCharacteristic(net, ctx.array(xs), ctx.array(ys))
+            if how == "from_points":
+                cls = ch.LogSplineCharacteristic if kind == "log" else ch.SplineCharacteristic
+                if kind == "pchip":
+                    kw["interpolator_kind"] = "Pchip"
+                c = cls.from_points(net, list(zip(xs, ys)), **kw)
+            elif kind == "log":
+                c = ch.LogSplineCharacteristic(net, ctx.array(xs), ctx.array(ys), **kw)
             elif kind == "pchip":
-                c = ch.SplineCharacteristic(net, ctx.array(xs), ctx.array(ys), interpolator_kind="Pchip")
+                c = ch.SplineCharacteristic(net, ctx.array(xs), ctx.array(ys), interpolator_kind="Pchip", **kw)
             else:
-                c = ch.SplineCharacteristic(net, ctx.array(xs), ctx.array(ys))
+                c = ch.SplineCharacteristic(net, ctx.array(xs), ctx.array(ys), **kw)
             for i in range(n):
                 got = c(xs[i])
                 got = got[()] if isinstance(got, np.ndarray) and got.ndim == 0 else got
@@ -132,6 +161,35 @@ def make_spline(kind):
                     ctx.eq(f"passes_through_support_point/{i}", got, ys[i])
                 else:
                     ctx.close(f"passes_through_support_point/{i}", float(got), ys[i], 1e-6)
+            # the interpolator that answers is the requested one, built with the caller's options
+            it = c.interpolator
+            want_kind = "Pchip" if kw.get("interpolator_kind") == "Pchip" or kind == "pchip" else "interp1d"
+            if ctx.symbolic:
+                got_kind, got_kw = it.kind, it.kw
+            else:
+                got_kind = "Pchip" if type(it).__name__ == "PchipInterpolator" else "interp1d"
+                got_kw = {k: v for k, v in c.kwargs.items()}
+            ctx.true("requested_interpolator_kind_is_used", got_kind == want_kind)
+            for k, v in (extra_kw or {}).items():
+                if k == "interpolator_kind":
+                    continue
+                ctx.true(f"interpolator_option_is_passed_on/{k}", k in got_kw and got_kw[k] == v)
+            if monotone and kind == "pchip":
+                x = ctx.var("x", 0.1, 10.)
+                ctx.assume(x >= xs[0])
+                ctx.assume(x <= xs[-1])
+                v = c(x)
+                v = v[()] if isinstance(v, np.ndarray) and v.ndim == 0 else v
+                if ctx.symbolic:
+                    for k in range(n - 1):
+                        inside = (x >= xs[k]) & (x <= xs[k + 1])
+                        ctx.true(f"monotone_data_stays_between_neighbouring_support_values/segment{k}",
+                                 core.implies(inside, (v >= ys[k]) & (v <= ys[k + 1])))
+                else:
+                    for k in range(n - 1):
+                        if xs[k] <= x <= xs[k + 1]:
+                            ctx.true(f"monotone_data_stays_between_neighbouring_support_values/segment{k}",
+                                     ys[k] - 1e-9 <= float(v) <= ys[k + 1] + 1e-9)
     return fn
 
 
@@ -141,7 +199,15 @@ def instances(tier):
             Inst("from_gradient", make_gradient(), nvars=12, samples=3, meta=dict(cls="Characteristic.from_gradient")),
             Inst("spline_interp1d", make_spline("interp1d"), nvars=16, samples=2, meta=dict(cls="SplineCharacteristic", interpolator="interp1d")),
             Inst("spline_pchip", make_spline("pchip"), nvars=16, samples=2, meta=dict(cls="SplineCharacteristic", interpolator="Pchip")),
-            Inst("log_spline", make_spline("log"), nvars=24, samples=2, meta=dict(cls="LogSplineCharacteristic"))]
+            Inst("log_spline", make_spline("log"), nvars=24, samples=2, meta=dict(cls="LogSplineCharacteristic")),
+            Inst("spline_pchip_monotone", make_spline("pchip", monotone=True), nvars=24, samples=3,
+                 meta=dict(cls="SplineCharacteristic", interpolator="Pchip", data="monotone")),
+            Inst("spline_from_points_pchip_monotone", make_spline("pchip", how="from_points", monotone=True), nvars=24, samples=3,
+                 meta=dict(cls="SplineCharacteristic.from_points", interpolator="Pchip", data="monotone")),
+            Inst("spline_from_points_options", make_spline("interp1d", how="from_points", extra_kw=dict(kind="linear")), nvars=16, samples=2,
+                 meta=dict(cls="SplineCharacteristic.from_points", interpolator="interp1d", options="kind=linear")),
+            Inst("log_spline_from_points_pchip", make_spline("log", how="from_points", extra_kw=dict(interpolator_kind="Pchip")), nvars=24, samples=2,
+                 meta=dict(cls="LogSplineCharacteristic.from_points", interpolator="Pchip"))]
 
 
 LEVEL_TEXT = ("Bounded model checking of the characteristic classes: for symbolic strictly increasing support points z3 shows that the piecewise "
